@@ -298,7 +298,7 @@ func TestVerifC13Malformed(t *testing.T) {
 	r.SetRule("Each case builds a PRNG base state (real slot FSM over the real meta DB), then applies ~36 commands that must be refused — unowned hash slots (envelope, per-item hash slot of the five multi-hash-slot command types, wrong slot id, delta/envelope mismatch) and damaged payloads (13 damage classes over samples of every command family) — alone and inside a batch between two valid commands, each followed by a valid batch. An evaluation is one ApplyBatch call. Non-trivial = a refused command whose batch variant was also exercised; distinct by (damage class or unowned kind, command type, refused/decoded).")
 	r.Assume("Hash-slot migration maintenance commands (ApplyDelta, EnterFence, Ack, Cleanup) are accepted for hash slots the slot does not own by design (resolveHashSlot: incoming delta before ownership, delayed fence after ownership moved) and are therefore not used as 'must refuse' inputs.")
 
-	nCases := r.N(40, 600)
+	nCases := r.N(40, 300)
 	for i := 0; i < nCases; i++ {
 		if r.Skip(i) {
 			continue
@@ -488,12 +488,13 @@ type c13Image struct {
 }
 
 func TestVerifC13Crash(t *testing.T) {
-	r := verifkit.Start(t, "C13", "crash")
-	defer r.Finish()
+	kr := verifkit.Start(t, "C13", "crash")
+	defer kr.Finish()
+	r := &c13Run{Run: kr}
 	r.SetRule("Each case replays one PRNG command log (see unit main) in PRNG batches over vfs.CrashableMem; a wrapper takes a Pebble crash image before and after every WAL sync (process-kill 100%, power-loss 0% and torn 50% of unsynced data, in rotation). An evaluation is one opened image: Snapshot(image) must equal the one-by-one reference state after the command whose index is DurableAppliedIndex(image). Non-trivial = image whose applied index is neither 0 nor the last index; distinct by (log fingerprint, image applied index, unsynced percentage).")
 	r.Assume("vfs.CrashableMem/CrashClone is a faithful model of what survives a process kill (100%) or a power loss (0%/50% of unsynced blocks); Pebble's own WAL recovery is trusted.")
 
-	nCases := r.N(12, 160)
+	nCases := r.N(12, 100)
 	for i := 0; i < nCases; i++ {
 		if r.Skip(i) {
 			continue
@@ -555,11 +556,17 @@ func TestVerifC13Crash(t *testing.T) {
 		taken := images
 		mu.Unlock()
 		env.close()
+		if !ok {
+			// the run itself already diverged from the reference (reported by the
+			// batch check); its images cannot be judged against the reference.
+			r.Count("image_sets_skipped_after_divergence", 1)
+			continue
+		}
 		r.Count("wal_sync_hooks", syncs)
 		r.Count("images_taken", len(taken))
 		lastIndex := ref.entries[n-1].Index
 		for _, img := range taken {
-			ienv, err := c13NewEnv(img.fs, fam)
+			ienv, err := c13NewEnvAt(img.fs, env.root, fam)
 			r.Eval(1)
 			if err != nil {
 				r.Violation("crash-image-unopenable", map[string]any{"case": i, "pct": img.pct, "when": img.when, "err": err.Error()})
